@@ -60,33 +60,90 @@ const INIT: Tagged = Tagged { writer: 255, seq: 0 };
 #[expect(clippy::expl_impl_clone_on_copy, reason = "the clone IS the harness gate")]
 impl Clone for Tagged {
     fn clone(&self) -> Self {
-        callback(Some(*self));
+        callback(SITE_USER, Some(*self));
         *self
     }
 }
 
 fn local_initialiser() -> Tagged {
-    callback(None);
+    callback(SITE_USER, None);
     INIT
+}
+
+/// Places inside the library where a thread can be parked.
+/// 0: user code inside `RegionalState::initialize` (region_cached: `Tagged::clone`, region_local:
+///    the initialiser fn) - the initialising marker is in the slot;
+/// 1..5: `cfg(folo_verif)` yield points in windows without user code.
+const SITE_USER: u8 = 0;
+/// region_cached `set_global/generation-taken` (generation fetched, value not yet published);
+/// region_local `set_local/region-resolved` (region chosen, value not yet stored)
+const SITE_WRITE_BEGUN: u8 = 1;
+/// region_cached `set_global/published` (latest value stored, regions not yet invalidated)
+const SITE_PUBLISHED: u8 = 2;
+/// region_cached `with_in_region/latest-loaded` (latest value loaded, marker not yet placed);
+/// region_local `initialize/uninitialized-seen` (empty slot seen, marker not yet placed)
+const SITE_INIT_BEGUN: u8 = 3;
+/// region_cached `initialize/cloned`, region_local `initialize/initialized`
+/// (value produced, not yet installed; the marker is in the slot unless a write removed it)
+const SITE_PRODUCED: u8 = 4;
+/// region_cached `with_in_region/initialized` (regional copy installed, latest generation not yet re-checked)
+const SITE_INSTALLED: u8 = 5;
+const NSITES: usize = 6;
+
+const SITE_LABEL: [&str; NSITES] = [
+    "user-callback(clone/initialiser-fn)",
+    "write-begun(before-publish)",
+    "published(before-invalidate)",
+    "init-begun(before-marker)",
+    "produced(before-install)",
+    "installed(before-recheck)",
+];
+
+/// Installed as the `__verif` point hook of both crates.
+fn point_hook(name: &'static str) {
+    let site = match name {
+        "set_global/generation-taken" | "set_local/region-resolved" => SITE_WRITE_BEGUN,
+        "set_global/published" => SITE_PUBLISHED,
+        "with_in_region/latest-loaded" | "initialize/uninitialized-seen" => SITE_INIT_BEGUN,
+        "initialize/cloned" | "initialize/initialized" => SITE_PRODUCED,
+        "with_in_region/initialized" => SITE_INSTALLED,
+        _ => return,
+    };
+    callback(site, None);
+}
+
+/// The site a gate's raw `site` means for one crate (region_local has no analogue of 2 and 5).
+fn effective_site(raw: u8, cached: bool) -> u8 {
+    let s = raw % NSITES as u8;
+    match (cached, s) {
+        (false, SITE_PUBLISHED) => SITE_WRITE_BEGUN,
+        (false, SITE_INSTALLED) => SITE_PRODUCED,
+        _ => s,
+    }
 }
 
 struct WorkerCtx {
     idx: usize,
     rx: Receiver<Cmd>,
     events: Sender<Event>,
+    /// this thread owns a gate in the current case and gates are still on: report every site
+    report: std::cell::Cell<bool>,
 }
 
 thread_local! {
     static WORKER: RefCell<Option<WorkerCtx>> = const { RefCell::new(None) };
 }
 
-/// Runs on a worker thread inside the library (inside `RegionalState::initialize`): reports to the
-/// coordinator and parks until told to continue. On any other thread it does nothing.
-fn callback(holding: Option<Tagged>) {
+/// Runs on a worker thread inside the library: reports the site to the coordinator and parks until
+/// told to continue. On any other thread, and on workers that own no gate, it does nothing.
+fn callback(site: u8, holding: Option<Tagged>) {
     WORKER.with(|w| {
         let b = w.borrow();
         let Some(ctx) = b.as_ref() else { return };
-        if ctx.events.send(Event::Callback { thread: ctx.idx, holding }).is_err() {
+        if !ctx.report.get() {
+            return;
+        }
+        if ctx.events.send(Event::Callback { thread: ctx.idx, site, holding }).is_err() {
             return;
         }
         match ctx.rx.recv() {
@@ -241,7 +298,10 @@ struct Step {
 #[derive(Debug, Clone, Serialize, Deserialize)]
 struct Gate {
     reader: u16,
-    /// fires in the reader's k-th callback (1-based) of the main phase
+    /// where the reader is parked (see `SITE_*`; taken modulo 6, mapped per crate)
+    #[serde(default)]
+    site: u8,
+    /// fires the k-th time (1-based) the reader passes that site in the main phase
     k: u8,
     actions: Vec<Step>,
 }
@@ -297,10 +357,11 @@ fn case_strategy() -> impl Strategy<Value = Case> {
             prop::collection::vec(
                 (
                     any::<u16>(),
+                    prop_oneof![5 => Just(SITE_USER), 6 => 1u8..NSITES as u8],
                     prop_oneof![5 => Just(1u8), 3 => Just(2u8), 2 => 3u8..=5],
                     prop::collection::vec(step_strategy(9), 1..5),
                 )
-                    .prop_map(|(reader, k, actions)| Gate { reader, k, actions }),
+                    .prop_map(|(reader, site, k, actions)| Gate { reader, site, k, actions }),
                 0..5,
             ),
         )
@@ -328,6 +389,8 @@ enum Cmd {
     /// pin to processor set of a region: (region id, processor ids)
     Pin(Vec<u32>),
     Resume,
+    /// quiescent phase: stop reporting sites
+    GatesOff,
     Exit,
 }
 
@@ -343,7 +406,7 @@ enum Outcome {
 
 #[derive(Debug)]
 enum Event {
-    Callback { thread: usize, holding: Option<Tagged> },
+    Callback { thread: usize, site: u8, holding: Option<Tagged> },
     Done { thread: usize, outcome: Outcome },
 }
 
@@ -364,6 +427,8 @@ struct WorkerSetup {
 }
 
 struct Begin<K: Kind> {
+    /// the thread owns at least one gate: it reports every site it passes
+    report: bool,
     setup: WorkerSetup,
     hw: SystemHardware,
     handles: Handles<K>,
@@ -377,7 +442,7 @@ fn next_cmd() -> Option<Cmd> {
 /// because many_cpus keeps per-thread pin state per hardware instance).
 fn worker_main<K: Kind>(idx: usize, rx: Receiver<Cmd>, events: Sender<Event>) {
     let events2 = events.clone();
-    WORKER.with(|w| *w.borrow_mut() = Some(WorkerCtx { idx, rx, events }));
+    WORKER.with(|w| *w.borrow_mut() = Some(WorkerCtx { idx, rx, events, report: std::cell::Cell::new(false) }));
     let done = |outcome: Outcome| events2.send(Event::Done { thread: idx, outcome }).is_ok();
     loop {
         let begin = match next_cmd() {
@@ -390,7 +455,8 @@ fn worker_main<K: Kind>(idx: usize, rx: Receiver<Cmd>, events: Sender<Event>) {
             }
             _ => break,
         };
-        let Begin { setup, hw, handles } = *begin;
+        let Begin { report, setup, hw, handles } = *begin;
+        let set_report = |on: bool| WORKER.with(|w| w.borrow().as_ref().expect("ctx").report.set(on));
         let started = vcommon::catch(|| {
             if let Some(ids) = &setup.pin_first {
                 pin_to(&hw, ids);
@@ -401,6 +467,7 @@ fn worker_main<K: Kind>(idx: usize, rx: Receiver<Cmd>, events: Sender<Event>) {
             }
             held
         });
+        set_report(report);
         let mut held = match started {
             Ok(h) => {
                 if !done(Outcome::Ready) {
@@ -423,6 +490,10 @@ fn worker_main<K: Kind>(idx: usize, rx: Receiver<Cmd>, events: Sender<Event>) {
             };
             match cmd {
                 Cmd::End => break,
+                Cmd::GatesOff => {
+                    set_report(false);
+                    continue;
+                }
                 Cmd::Exit | Cmd::Begin(_) => {
                     exit = true;
                     break;
@@ -456,6 +527,7 @@ fn worker_main<K: Kind>(idx: usize, rx: Receiver<Cmd>, events: Sender<Event>) {
                 break;
             }
         }
+        set_report(false);
         held.take();
         drop(handles);
         drop(hw);
@@ -520,8 +592,9 @@ struct ReadRec {
     /// index into the case's regions, if the harness knows where the thread runs
     region: Option<usize>,
     value: Tagged,
-    /// writes completed when the read returned
-    writes_after: usize,
+    /// harness clock (one tick per operation start / end) when the read was dispatched / returned
+    start: u64,
+    end: u64,
     final_phase: bool,
     /// the thread's directly preceding operation was this write (index in the write log)
     own_prev: Option<usize>,
@@ -532,15 +605,24 @@ struct WriteRec {
     thread: usize,
     region: Option<usize>,
     value: Tagged,
+    /// harness clock when the write was dispatched / returned (it can be parked in between)
+    start: u64,
+    end: u64,
 }
 
 #[derive(Debug, Serialize, Deserialize)]
 struct Window {
-    region: usize,
+    /// where the reader is parked
+    site: u8,
+    /// region of the parked thread (None: unpinned writer on multi-region hardware)
+    region: Option<usize>,
+    /// region_cached: the value the parked initialiser is cloning / has installed
     holding: Option<Tagged>,
     writes_inside: u32,
     /// indices (write log) of the writes that completed inside the window
     write_idx: Vec<usize>,
+    /// indices (read log) of the reads that completed inside the window
+    read_idx: Vec<usize>,
     depth: usize,
 }
 
@@ -590,12 +672,16 @@ struct Run<'a> {
     region_of: Vec<Option<usize>>,
     can_move: Vec<bool>,
     pin_single: Vec<bool>,
-    /// model: which parked initialiser's marker is in a region slot
-    marker: Vec<Option<usize>>,
-    /// open gate windows, innermost last: (reader, window index)
-    stack: Vec<(usize, usize)>,
+    /// model: region whose slot holds this thread's initialising marker (set when the thread
+    /// reports the user callback, removed by a completed write or when it installs its value)
+    holds: Vec<Option<usize>>,
+    /// region_cached: the value a reporting thread was last seen cloning in its current attempt
+    last_holding: Vec<Option<Tagged>>,
+    /// open gate windows, innermost last: (reader, window index, site)
+    stack: Vec<(usize, usize, u8)>,
     windows: Vec<Window>,
-    cb_count: Vec<u32>,
+    site_count: Vec<[u32; NSITES]>,
+    clock: u64,
     next_seq: Vec<u32>,
     prev_write: Vec<Option<usize>>,
     fired: Vec<bool>,
@@ -604,7 +690,6 @@ struct Run<'a> {
     final_phase: bool,
     skipped_blocked: u32,
     skipped_parked: u32,
-    ungated_callbacks: u32,
     unpinned_reads: u32,
 }
 
@@ -635,10 +720,17 @@ impl Run<'_> {
 
     /// Would a read by `t` wait for a parked initialiser (and so deadlock the harness)?
     fn read_would_block(&self, t: usize) -> bool {
-        match self.region_of[t] {
-            Some(x) => self.marker[x].is_some(),
-            None => self.marker.iter().any(Option::is_some),
-        }
+        let mine = self.region_of[t];
+        self.stack.iter().any(|(r, _, site)| {
+            // a thread parked in user code or just before installing still has its marker in the
+            // slot unless a write removed it since
+            (*site == SITE_USER || *site == SITE_PRODUCED) && self.holds[*r].is_some_and(|x| mine.is_none_or(|m| m == x))
+        })
+    }
+
+    fn tick(&mut self) -> u64 {
+        self.clock += 1;
+        self.clock
     }
 
     fn step(&mut self, step: &Step) -> Result<(), Stop> {
@@ -671,7 +763,7 @@ impl Run<'_> {
     }
 
     fn exec(&mut self, t: usize, mut op: Exec) -> Result<(), Stop> {
-        if self.stack.iter().any(|(r, _)| *r == t) {
+        if self.stack.iter().any(|(r, _, _)| *r == t) {
             self.skipped_parked += 1;
             return Ok(());
         }
@@ -698,18 +790,19 @@ impl Run<'_> {
                     self.unpinned_reads += 1;
                 }
                 let own_prev = self.prev_write[t].take();
+                let start = self.tick();
                 self.send(t, Cmd::Read { get })?;
                 let region = self.region_of[t];
-                match self.wait_done(t)? {
+                let outcome = self.wait_done(t);
+                self.holds[t] = None;
+                match outcome? {
                     Outcome::Read(value) => {
-                        self.reads.push(ReadRec {
-                            thread: t,
-                            region,
-                            value,
-                            writes_after: self.writes.len(),
-                            final_phase: self.final_phase,
-                            own_prev,
-                        });
+                        let ri = self.reads.len();
+                        for (_, w, _) in &self.stack {
+                            self.windows[*w].read_idx.push(ri);
+                        }
+                        let end = self.tick();
+                        self.reads.push(ReadRec { thread: t, region, value, start, end, final_phase: self.final_phase, own_prev });
                         Ok(())
                     }
                     o => Err(Stop::Protocol(format!("read answered {o:?}"))),
@@ -718,6 +811,7 @@ impl Run<'_> {
             Exec::Write => {
                 self.next_seq[t] += 1;
                 let value = Tagged { writer: t as u8, seq: self.next_seq[t] };
+                let start = self.tick();
                 self.send(t, Cmd::Write(value))?;
                 match self.wait_done(t)? {
                     Outcome::Wrote => {}
@@ -727,22 +821,23 @@ impl Run<'_> {
                 // model: the write removes initialising markers (cached: everywhere; local: its region)
                 let wi = self.writes.len();
                 if self.cached {
-                    self.marker.iter_mut().for_each(|m| *m = None);
-                    for (_, w) in &self.stack {
+                    self.holds.iter_mut().for_each(|m| *m = None);
+                    for (_, w, _) in &self.stack {
                         self.windows[*w].writes_inside += 1;
                         self.windows[*w].write_idx.push(wi);
                     }
                 } else if let Some(x) = region {
-                    self.marker[x] = None;
-                    for (_, w) in &self.stack {
-                        if self.windows[*w].region == x {
+                    self.holds.iter_mut().filter(|m| **m == Some(x)).for_each(|m| *m = None);
+                    for (_, w, _) in &self.stack {
+                        if self.windows[*w].region == Some(x) {
                             self.windows[*w].writes_inside += 1;
                             self.windows[*w].write_idx.push(wi);
                         }
                     }
                 }
+                let end = self.tick();
                 self.prev_write[t] = Some(self.writes.len());
-                self.writes.push(WriteRec { thread: t, region, value });
+                self.writes.push(WriteRec { thread: t, region, value, start, end });
                 Ok(())
             }
             Exec::Move(x) => {
@@ -832,12 +927,12 @@ impl Run<'_> {
                     }
                     return Ok(outcome);
                 }
-                Event::Callback { thread, holding } => {
+                Event::Callback { thread, site, holding } => {
                     if thread != t {
                         return Err(Stop::Protocol(format!("callback from {thread} while {t} was running")));
                     }
                     if pending.is_none() {
-                        match self.on_callback(t, holding) {
+                        match self.on_callback(t, site, holding) {
                             Ok(()) => {}
                             Err(e @ Stop::Hang(_)) => return Err(e),
                             Err(e) => pending = Some(e),
@@ -849,66 +944,89 @@ impl Run<'_> {
         }
     }
 
-    fn on_callback(&mut self, t: usize, holding: Option<Tagged>) -> Result<(), Stop> {
-        if self.final_phase {
+    fn on_callback(&mut self, t: usize, site: u8, holding: Option<Tagged>) -> Result<(), Stop> {
+        if self.final_phase || site as usize >= NSITES {
             return Ok(());
         }
-        self.cb_count[t] += 1;
-        let k = self.cb_count[t];
-        let Some(x) = self.region_of[t] else {
-            self.ungated_callbacks += 1;
+        let region = self.region_of[t];
+        // --- model of the initialising marker and of the value being installed
+        match site {
+            SITE_INIT_BEGUN => {
+                self.holds[t] = None;
+                self.last_holding[t] = None;
+            }
+            SITE_USER => {
+                self.holds[t] = region;
+                self.last_holding[t] = holding;
+            }
+            SITE_INSTALLED => self.holds[t] = None,
+            _ => {}
+        }
+        self.site_count[t][site as usize] += 1;
+        let k = self.site_count[t][site as usize];
+        let init_site = matches!(site, SITE_USER | SITE_INIT_BEGUN | SITE_PRODUCED | SITE_INSTALLED);
+        if init_site && region.is_none() {
+            // an initialiser in an unknown region cannot be modelled
             return Ok(());
-        };
+        }
+        // region_local runs the initialiser once per region, so a reader rarely passes an
+        // initialisation site twice: such gates fire at the reader's next passes, in list order
+        let ignore_k = !self.cached && init_site;
+        let cached = self.cached;
         let gate = self
             .case
             .gates
             .iter()
             .enumerate()
             .find(|(i, g)| {
-                // region_local runs the initialiser once per region, so a reader rarely has a
-                // second callback: its gates fire at its next callbacks in list order.
-                !self.fired[*i] && pick_index(g.reader, self.nthreads) == t && (!self.cached || u32::from(g.k) == k)
+                !self.fired[*i]
+                    && pick_index(g.reader, self.nthreads) == t
+                    && effective_site(g.site, cached) == site
+                    && (ignore_k || u32::from(g.k) == k)
             })
             .map(|(i, _)| i);
         let Some(gi) = gate else {
-            self.ungated_callbacks += 1;
             return Ok(());
         };
         if self.stack.len() >= MAX_DEPTH {
-            self.ungated_callbacks += 1;
             return Ok(());
         }
         self.fired[gi] = true;
         let w = self.windows.len();
-        self.windows.push(Window { region: x, holding, writes_inside: 0, write_idx: Vec::new(), depth: self.stack.len() + 1 });
-        self.stack.push((t, w));
-        self.marker[x] = Some(t);
+        let holding = if site == SITE_USER { holding } else { self.last_holding[t] };
+        self.windows.push(Window {
+            site,
+            region,
+            holding,
+            writes_inside: 0,
+            write_idx: Vec::new(),
+            read_idx: Vec::new(),
+            depth: self.stack.len() + 1,
+        });
+        self.stack.push((t, w, site));
         let case = self.case;
         let mut res = Ok(());
         for a in &case.gates[gi].actions {
             if res.is_err() {
                 break;
             }
-            res = if self.cached {
-                self.step(a)
-            } else {
-                // region_local: only operations in the window's region interact with it, so the
-                // actor is chosen among the threads that are in that region now (if any)
-                let here: Vec<usize> = (0..self.nthreads).filter(|u| *u != t && self.region_of[*u] == Some(x)).collect();
-                if here.is_empty() {
-                    self.step(a)
-                } else {
-                    let u = here[pick_index(a.thread, here.len())];
-                    let op = self.to_exec(a.op);
-                    self.exec(u, op)
+            res = match region {
+                Some(x) if !self.cached => {
+                    // region_local: only operations in the window's region interact with it, so the
+                    // actor is chosen among the threads that are in that region now (if any)
+                    let here: Vec<usize> = (0..self.nthreads).filter(|u| *u != t && self.region_of[*u] == Some(x)).collect();
+                    if here.is_empty() {
+                        self.step(a)
+                    } else {
+                        let u = here[pick_index(a.thread, here.len())];
+                        let op = self.to_exec(a.op);
+                        self.exec(u, op)
+                    }
                 }
+                _ => self.step(a),
             };
         }
         self.stack.pop();
-        if self.marker[x] == Some(t) {
-            // the initialiser replaces its own marker by the Ready value
-            self.marker[x] = None;
-        }
         res
     }
 }
@@ -999,10 +1117,12 @@ fn exec_case<K: Kind>(case: &Case, pool_slot: &mut Option<Pool>) -> ChildReply {
         region_of: Vec::new(),
         can_move: Vec::new(),
         pin_single: Vec::new(),
-        marker: vec![None; nregions],
+        holds: vec![None; nthreads],
+        last_holding: vec![None; nthreads],
         stack: Vec::new(),
         windows: Vec::new(),
-        cb_count: vec![0; nthreads],
+        site_count: vec![[0; NSITES]; nthreads],
+        clock: 0,
         next_seq: vec![0; nthreads],
         prev_write: vec![None; nthreads],
         fired: vec![false; case.gates.len()],
@@ -1011,7 +1131,6 @@ fn exec_case<K: Kind>(case: &Case, pool_slot: &mut Option<Pool>) -> ChildReply {
         final_phase: false,
         skipped_blocked: 0,
         skipped_parked: 0,
-        ungated_callbacks: 0,
         unpinned_reads: 0,
     };
 
@@ -1030,7 +1149,8 @@ fn exec_case<K: Kind>(case: &Case, pool_slot: &mut Option<Pool>) -> ChildReply {
         run.can_move.push(can_move);
         run.pin_single.push(spec.pin_single);
         let setup = WorkerSetup { pin_first, pin_after, access: spec.access, reacquire: spec.reacquire };
-        let begin: Box<Begin<K>> = Box::new(Begin { setup, hw: hw.clone(), handles: handles.dup() });
+        let report = idx < case.threads.len() && case.gates.iter().any(|g| pick_index(g.reader, case.threads.len()) == idx);
+        let begin: Box<Begin<K>> = Box::new(Begin { report, setup, hw: hw.clone(), handles: handles.dup() });
         if let Err(e) = run.send(idx, Cmd::Begin(begin)) {
             start = Err(e);
         }
@@ -1121,6 +1241,9 @@ fn drive(run: &mut Run<'_>, nthreads_with_sweeper: usize) -> Result<(), Stop> {
     }
     // --- quiescent phase: everything has returned; no gate fires any more
     run.final_phase = true;
+    for t in 0..nthreads_with_sweeper {
+        run.send(t, Cmd::GatesOff)?;
+    }
     let sweeper = nthreads_with_sweeper - 1;
     run.sweep()?;
     for t in 0..sweeper {
@@ -1136,15 +1259,27 @@ fn judge(run: &Report, cached: bool, name: &str, ctx: &mut Ctx) -> Verdict {
     if fired > 0 {
         ctx.classify("gate-fired");
     }
+    for w in &run.windows {
+        ctx.classify(&format!("gate@{}", SITE_LABEL[w.site as usize]));
+        if w.writes_inside > 0 {
+            ctx.classify(&format!("write-inside-window@{}", SITE_LABEL[w.site as usize]));
+        }
+        if !w.read_idx.is_empty() {
+            ctx.classify(&format!("read-inside-window@{}", SITE_LABEL[w.site as usize]));
+        }
+    }
     if !hit.is_empty() {
-        ctx.classify("write-inside-init-window");
+        ctx.classify("write-inside-window");
         ctx.nontrivial();
     }
     if hit.len() >= 2 {
-        ctx.classify("write-inside-init-window:>=2-windows");
+        ctx.classify("write-inside-window:>=2-windows");
     }
     if hit.iter().any(|w| w.writes_inside >= 2) {
-        ctx.classify("write-inside-init-window:>=2-writes");
+        ctx.classify("write-inside-window:>=2-writes");
+    }
+    if run.writes.iter().enumerate().any(|(i, a)| run.writes[..i].iter().any(|b| b.end > a.start)) {
+        ctx.classify("overlapping-writes");
     }
     if run.windows.iter().any(|w| w.depth >= 2) {
         ctx.classify("nested-gate");
@@ -1166,21 +1301,39 @@ fn judge(run: &Report, cached: bool, name: &str, ctx: &mut Ctx) -> Verdict {
     }
 
     // --- quiescent state
-    let mut last_global = INIT;
+    // region_cached: a write can be parked inside set_global while others complete, so "the last
+    // value written" is any write that is maximal in real-time order (no write started after it
+    // returned) - exactly the last write when writes did not overlap - and all regions must agree.
+    let max_start = run.writes.iter().map(|w| w.start).max().unwrap_or(0);
+    let maximal: Vec<Tagged> = if run.writes.is_empty() { vec![INIT] } else { run.writes.iter().filter(|w| w.end >= max_start).map(|w| w.value).collect() };
     let mut last_in_region = vec![INIT; run.nregions];
     for w in &run.writes {
-        last_global = w.value;
         if let Some(x) = w.region {
             last_in_region[x] = w.value;
         }
     }
+    let mut agreed: Option<&ReadRec> = None;
     for r in run.reads.iter().filter(|r| r.final_phase) {
         if cached {
-            if r.value != last_global {
-                let window = run
-                    .windows
-                    .iter()
-                    .any(|w| w.writes_inside > 0 && w.holding == Some(r.value) && r.region.is_none_or(|x| x == w.region));
+            if maximal.contains(&r.value) {
+                match agreed {
+                    None => agreed = Some(r),
+                    Some(first) if first.value != r.value => {
+                        return Err(Failure::new(
+                            format!("C13/{name}/quiescent/regions-disagree"),
+                            format!(
+                                "after all {} writes returned, thread {} in region index {:?} reads {:?} but thread {} in region index {:?} reads {:?} (overlapping last writes: {:?})",
+                                run.writes.len(), first.thread, first.region, first.value, r.thread, r.region, r.value, maximal
+                            ),
+                        ));
+                    }
+                    Some(_) => {}
+                }
+            } else {
+                let last_global = &maximal;
+                let window = run.windows.iter().any(|w| {
+                    matches!(w.site, SITE_USER | SITE_PRODUCED) && w.writes_inside > 0 && w.holding == Some(r.value) && (r.region.is_none() || r.region == w.region)
+                });
                 let sig = if window {
                     format!("C13/{name}/write-during-region-init/stale-forever")
                 } else {
@@ -1206,7 +1359,10 @@ fn judge(run: &Report, cached: bool, name: &str, ctx: &mut Ctx) -> Verdict {
                         // lost = the region serves the initial value although its last write
                         // completed while the region's initialiser was running
                         let last_idx = run.writes.iter().rposition(|w| w.region == Some(x));
-                        let window = r.value == INIT && last_idx.is_some_and(|li| run.windows.iter().any(|w| w.region == x && w.write_idx.contains(&li)));
+                        let window = r.value == INIT
+                            && last_idx.is_some_and(|li| {
+                                run.windows.iter().any(|w| matches!(w.site, SITE_USER | SITE_PRODUCED) && w.region == Some(x) && w.write_idx.contains(&li))
+                            });
                         let sig = if window {
                             format!("C13/{name}/write-during-region-init/lost")
                         } else if run.writes.iter().any(|w| w.value == r.value && w.region != Some(x)) {
@@ -1240,7 +1396,7 @@ fn judge(run: &Report, cached: bool, name: &str, ctx: &mut Ctx) -> Verdict {
 
     // --- every value read was written (or is the initial value)
     for r in &run.reads {
-        let known = r.value == INIT || run.writes[..r.writes_after].iter().any(|w| w.value == r.value);
+        let known = r.value == INIT || run.writes.iter().any(|w| w.value == r.value && w.start < r.end);
         if !known {
             return Err(Failure::new(
                 format!("C13/{name}/read/never-written-value"),
@@ -1249,16 +1405,28 @@ fn judge(run: &Report, cached: bool, name: &str, ctx: &mut Ctx) -> Verdict {
         }
     }
 
+    // A read made while an initialiser of the same region is parked between installing its
+    // regional copy and re-checking the latest generation, returning exactly that copy.
+    let transient = |ri: usize, r: &ReadRec| -> bool {
+        run.windows.iter().any(|w| w.site == SITE_INSTALLED && w.region.is_some() && w.region == r.region && w.holding == Some(r.value) && w.read_idx.contains(&ri))
+    };
+    let transient_sig = format!("C13/{name}/stale-copy-visible-between-install-and-recheck");
+
     // --- a pinned thread that writes then reads sees its own write unless another write came in between
-    for r in &run.reads {
+    for (ri, r) in run.reads.iter().enumerate() {
         let (Some(wi), Some(x)) = (r.own_prev, r.region) else { continue };
         let own = &run.writes[wi];
         if own.region != Some(x) {
             continue;
         }
-        let other = run.writes[wi + 1..r.writes_after].iter().any(|w| cached || w.region == Some(x));
+        // "in between" = any write of another thread that overlaps [own write dispatched, read returned]
+        let other = run
+            .writes
+            .iter()
+            .enumerate()
+            .any(|(i, w)| i != wi && w.thread != r.thread && w.end > own.start && w.start < r.end && (cached || w.region == Some(x)));
         if !other && r.value != own.value {
-            let sig = format!("C13/{name}/own-write/not-visible");
+            let sig = if transient(ri, r) { transient_sig.clone() } else { format!("C13/{name}/own-write/not-visible") };
             if !ctx.tolerate(&sig) {
                 return Err(Failure::new(
                     sig,
@@ -1273,22 +1441,16 @@ fn judge(run: &Report, cached: bool, name: &str, ctx: &mut Ctx) -> Verdict {
 
     // --- one writer's values are never seen out of order by one reader
     let mut seen: BTreeMap<(usize, u8, usize), u32> = BTreeMap::new();
-    for r in &run.reads {
+    for (ri, r) in run.reads.iter().enumerate() {
         if r.value == INIT {
             continue;
         }
-        // region_local values are per region; region_cached values are global
-        let scope = if cached {
-            0
-        } else {
-            match r.region {
-                Some(x) => x + 1,
-                None => continue,
-            }
-        };
+        // Sequencing is promised to readers that stay in one region ("reads on region-pinned
+        // threads"): judged per (reader, region); reads from an unknown region are not judged.
+        let Some(scope) = r.region else { continue };
         let e = seen.entry((r.thread, r.value.writer, scope)).or_insert(0);
         if r.value.seq < *e {
-            let sig = format!("C13/{name}/reader-order/went-backwards");
+            let sig = if transient(ri, r) { transient_sig.clone() } else { format!("C13/{name}/reader-order/went-backwards") };
             if !ctx.tolerate(&sig) {
                 return Err(Failure::new(
                     sig,
@@ -1306,6 +1468,8 @@ const RULE: &str = "generated fake hardware (1..8 regions, sparse ids) x 2..8 th
 
 fn main() {
     if vcommon::worker::worker_role().is_some() {
+        region_cached::__verif::install_point_hook(Some(point_hook));
+        region_local::__verif::install_point_hook(Some(point_hook));
         let mut cached_pool: Option<Pool> = None;
         let mut local_pool: Option<Pool> = None;
         vcommon::worker::serve(|line| {
